@@ -55,7 +55,7 @@ func silence(v int) func(from int, m tss.Message) []tss.Message {
 }
 
 func runC20(r *Run, rng *rand.Rand, thorough bool) {
-	r.Rule = "histories of k operations drawn from {serialise+reload through encoding/json, sign with a subset (any order), sign with a derivation offset, aborted signing (a peer silenced, a peer's message altered)} on one key per curve; after EVERY operation the stored key data is compared with a deep snapshot (canonical JSON) taken before it; the R component of every completed session is compared with every other; non-trivial = one operation; direct assertions: reload is lossless, reloaded keys sign with valid results, stored key data never modified, no nonce reuse"
+	r.Rule = "histories of k operations drawn from {serialise+reload through encoding/json, sign with a subset (any order), sign with a derivation offset, aborted signing (a peer silenced, a peer's message altered)} on one key per curve; after EVERY operation the stored key data is compared with a deep snapshot (canonical JSON) taken before it; the R component of every completed session is compared with every other, including two sessions on the same message with the same signers; non-trivial = one operation; direct assertions: reload is lossless, reloaded keys sign with valid results, stored key data never modified, no nonce reuse"
 	k := 4
 	if thorough {
 		k = 8
@@ -166,6 +166,20 @@ func runC20(r *Run, rng *rand.Rand, thorough bool) {
 				return fmt.Sprintf("history %v: party %d key data changed by %s", ops, sameSnap(before, after), op)
 			})
 		}
+		// directed: the same digest, the same signers, the same in-memory key data, twice
+		{
+			subs := combos(work.n, work.t+1)
+			sub := subs[rng.Intn(len(subs))]
+			m := big.NewInt(77007700)
+			for rep := 0; rep < 2; rep++ {
+				net, out := runEcdsaSigning(rng, work, sub, m, -1, nil, Strategy{Name: "fifo", Pick: pickFIFO}, nil)
+				checkEcdsaSignature(r, "ecdsa-history/same-message-same-signers", net, out, work.keys[0].ECDSAPub, m, -1, nil)
+				r.Evals++
+				if len(out.sigs) > 0 {
+					nonces = append(nonces, eBytes(out.sigs[0].R))
+				}
+			}
+		}
 		seen := map[string]int{}
 		for i, n := range nonces {
 			if j, dup := seen[n]; dup {
@@ -241,6 +255,20 @@ func runC20(r *Run, rng *rand.Rand, thorough bool) {
 			r.Assert(sameSnap(before, after) < 0, "eddsa-history/stored-key-modified/"+op, "stored-key-data-unchanged-by-session", func() string {
 				return fmt.Sprintf("history %v: party %d", edOps, sameSnap(before, after))
 			})
+		}
+		// directed: the same message, the same signers, the same in-memory key data, twice
+		{
+			subs := combos(edKs.n, edKs.t+1)
+			sub := subs[rng.Intn(len(subs))]
+			m := big.NewInt(77007700)
+			for rep := 0; rep < 2; rep++ {
+				net, out := runEddsaSigning(rng, edKs, sub, m, -1, Strategy{Name: "fifo", Pick: pickFIFO})
+				checkEddsaSignature(r, "eddsa-history/same-message-same-signers", net, out, edKs.keys[0].EDDSAPub, m, -1)
+				r.Evals++
+				if len(out.sigs) > 0 {
+					edNonces = append(edNonces, eBytes(out.sigs[0].Signature[:32]))
+				}
+			}
 		}
 		seen2 := map[string]int{}
 		for i, n := range edNonces {
